@@ -233,8 +233,8 @@ namespace GeographicLib {
   }
 
   template<typename T> T Math::tauf(T taup, T es) {
-    static const int numit = 5;
-    // min iterations = 1, max iterations = 2; mean = 1.95
+    static const int numit = 50;
+    // min iterations = 1, max iterations = 2; mean = 1.95 (WGS84)
     static const T tol = sqrt(numeric_limits<T>::epsilon()) / 10;
     static const T taumax = 2 / sqrt(numeric_limits<T>::epsilon());
     T e2m = 1 - es * fabs(es),
